@@ -306,6 +306,9 @@ type opsPkgVar struct {
 	init    ast.Expr
 	info    *types.Info
 	mutated bool
+	stores  [][2]ast.Expr // table[K] = v statements of init functions, in order
+	val     opsVal        // the table, once evaluated
+	done    bool
 }
 
 func newOpsEng(c *Ctx) *opsEng {
@@ -575,7 +578,7 @@ func (ev *opsEv) eval(st *opsSt, e ast.Expr) (out opsVal) {
 			if v, ok := st.env[o]; ok {
 				return v
 			}
-			return ev.cfg.g.pkgTable(o)
+			return ev.pkgTable(o)
 		case *types.Nil:
 			return opsVal{k: ovNil}
 		}
@@ -585,7 +588,7 @@ func (ev *opsEv) eval(st *opsSt, e ast.Expr) (out opsVal) {
 			return ev.valOfConst(k)
 		}
 		if pv, ok := info.Uses[x.Sel].(*types.Var); ok && !pv.IsField() {
-			return ev.cfg.g.pkgTable(pv) // pkg.Table
+			return ev.pkgTable(pv) // pkg.Table
 		}
 		sel := info.Selections[x]
 		if sel == nil || sel.Kind() != types.FieldVal {
@@ -886,6 +889,12 @@ func (ev *opsEv) call(st *opsSt, call *ast.CallExpr) opsVal {
 			vals := make([]opsVal, len(call.Args))
 			for i, a := range call.Args {
 				vals[i] = ev.eval(st, a)
+			}
+			// make(map[K]V): an empty table (filled by element stores)
+			if b.Name() == "make" && len(call.Args) >= 1 {
+				if mt, ok := info.TypeOf(call.Args[0]).Underlying().(*types.Map); ok {
+					return opsVal{k: ovTable, tbl: &opsTable{info: info, isMap: true, elemT: mt.Elem()}}
+				}
 			}
 			// append(<the Analyzer's diagnostic list>, <diagnostic of level Error>): an error report written in place
 			if dm := ev.cfg.diag; dm != nil && b.Name() == "append" && len(call.Args) >= 2 && dm.diagListField(info, call.Args[0]) != nil {
@@ -1449,6 +1458,21 @@ func (g *opsEng) walkOnce(cfg *opsCfg, body *ast.BlockStmt, end token.Pos, info 
 					if sx, ok := isTypeSwitchGuard(x.Rhs[0]); ok {
 						enterTypeSwitch(st, s, ev.eval(st, sx))
 						break
+					}
+				}
+				if len(x.Lhs) == 1 && len(x.Rhs) == 1 && x.Tok == token.ASSIGN {
+					// t[K] = v on a local map table: the table with that entry added
+					if ix, ok := ast.Unparen(x.Lhs[0]).(*ast.IndexExpr); ok {
+						if id, ok := ast.Unparen(ix.X).(*ast.Ident); ok {
+							if obj := info.Uses[id]; obj != nil {
+								if t, ok := st.env[obj]; ok && t.k == ovTable && t.tbl.isMap && t.tbl.info == info {
+									ev.eval(st, ix.Index)
+									ev.eval(st, x.Rhs[0])
+									st.env[obj] = opsVal{k: ovTable, tbl: t.tbl.with(ix.Index, x.Rhs[0])}
+									break
+								}
+							}
+						}
 					}
 				}
 				if len(x.Lhs) == 2 && len(x.Rhs) == 1 {
